@@ -558,6 +558,17 @@ Example dom_view_nonvacuous :
   /\ (valid ex_nsdefault = true /\ DomViewC01.Known_C01 ex_nsdefault = true).
 Proof. repeat split; vm_compute; reflexivity. Qed.
 
+Example dom_view_doctype_nonvacuous :
+  exists doc, Info.from_raw (render ex_adoc_dtd (fun p => (7 * N.of_nat (length p)) mod 5)%N) = Info.OOk ([], doc)
+              /\ DomView.dom_view true doc = Infoset.denote ex_adoc_dtd /\ DomView.dom_view false doc = Infoset.denote ex_adoc_dtd.
+Proof.
+  destruct doctype_valid_nonvacuous as (Hv & Hn & Ha).
+  destruct (rendered_is_accepted_partial ex_adoc_dtd (fun p => (7 * N.of_nat (length p)) mod 5)%N Hv Hn Ha) as [doc Hdoc].
+  exists doc. split; [exact Hdoc|].
+  assert (Hk : DomViewC01.Known_C01 ex_adoc_dtd = false) by (vm_compute; reflexivity).
+  exact (C01_dom_view_is_denote_partial ex_adoc_dtd (fun p => (7 * N.of_nat (length p)) mod 5)%N doc Hv Hn Ha Hk Hdoc).
+Qed.
+
 (* on the two excluded shapes the statement fails: the model (and the real crates) expose another information set *)
 Theorem C01_dom_view_refuted_required : exists doc, Info.from_raw (render ex_required (fun _ => 0%N)) = Info.OOk ([], doc)
   /\ DomView.dom_view true doc <> Infoset.denote ex_required.
